@@ -1,5 +1,740 @@
-"""pattern drivers (filled in below)"""
+"""Pattern drivers: "one input per shortcut you can see in the code".
+
+Every driver enumerates *all* instances of one family of operand shapes (all constants / slice
+bounds / extension amounts at small widths, byte-atom value alphabets at 8..64 bits) that reach a
+particular branch of claripy/simplifications.py, ast/bool.py:If or the concrete backend, written as
+ordinary Python over shadow values (mc/shadow.py).  Every single construction step is checked.
+"""
+
+from __future__ import annotations
+
+import itertools
+
+import claripy
+
+from . import shadow as S
+from .common import Part, pmap
+from .refsem import mask
+from .shadow import Ctx, Skip, byte_atom_domain, product_scope
+
+# ---------------------------------------------------------------------------------------------
+# domains
+# ---------------------------------------------------------------------------------------------
 
 
-def run_patterns(report, monitor, tier):
-    return
+def dom(w: int, budget: int = 4096, nvars: int = 1):
+    """value domain for one variable of width w such that nvars of them stay within budget envs"""
+    per = max(2, int(budget ** (1.0 / nvars)))
+    if (1 << w) <= per:
+        return list(range(1 << w))
+    if w % 8 == 0:
+        return byte_atom_domain(w, cap=per)
+    m = mask(w)
+    vals = {0, 1, 2, 3, m, m - 1, 1 << (w - 1), (1 << (w - 1)) - 1, (1 << (w - 1)) + 1, 0x5A5A5A5A5A5A5A5A5A & m, 0xA5A5A5A5A5A5A5A5A5 & m}
+    for i in range(w):
+        vals.add(1 << i)
+        vals.add(m ^ (1 << i))
+    return sorted(vals)[: max(per, 8)] if len(vals) > per else sorted(vals)
+
+
+def consts(w: int):
+    if w <= 4:
+        return list(range(1 << w))
+    m = mask(w)
+    c = {0, 1, 2, 3, 7, 8, w - 1, w, w + 1, 0x0F & m, 0x5A & m, 0x7F & m, 0x80 & m, 0xFF & m, (1 << (w - 1)) - 1, 1 << (w - 1), (1 << (w - 1)) + 1, m - 1, m}
+    return sorted(c)
+
+
+class Inst:
+    """runs one pattern instance with its own scope"""
+
+    def __init__(self, part, on_check):
+        self.part = part
+        self.on_check = on_check
+
+    def __call__(self, name, vars_, body):
+        scope = product_scope(vars_)
+        ctx = Ctx(scope, self.part, self.on_check, prefix=name + "|")
+        self.part.count("pattern_bodies")
+        try:
+            body(ctx)
+        except Skip:
+            self.part.count("zero_division_accepted")
+        except Exception as e:  # crashes are C04's business
+            self.part.count("raised_other")
+            self.part.note("raised_types", type(e).__name__)
+            self.part.note("raised_in", name.split("|")[0])
+
+
+# ---------------------------------------------------------------------------------------------
+# drivers: each is drv(inst, tier) and calls inst(name, vars, body) for every instance
+# ---------------------------------------------------------------------------------------------
+
+
+def d_reverse(inst, tier, w):
+    D = dom(w, 1500)
+    D2 = dom(w, 1500, 2)
+    nb = w // 8
+    inst(f"rev.revrev|w={w}", [("x", w, D)], lambda c: c.bv("x", w).reversed.reversed)
+    inst(f"rev.Reverse.reversed|w={w}", [("x", w, D)], lambda c: S.Reverse(S.Reverse(c.bv("x", w))))
+
+    # Reverse(Concat(x[7:0], x[15:8], ...)) : bswap idiom, full and partial
+    def bswap(c, k, order):
+        x = c.bv("x", w)
+        parts = [x[(i + 1) * 8 - 1 : i * 8] for i in range(k)]
+        if order == "rev":
+            parts = parts[::-1]
+        S.Reverse(S.Concat(*parts)) if len(parts) > 1 else S.Reverse(parts[0])
+
+    for k in range(1, nb + 1):
+        for order in ("fwd", "rev"):
+            inst(f"rev.bswap|w={w}|k={k}|{order}", [("x", w, D)], lambda c, k=k, order=order: bswap(c, k, order))
+
+    # Reverse(Concat of 8-bit variables / constants)
+    def bytes_concat(c, kinds):
+        parts = []
+        for i, kd in enumerate(kinds):
+            parts.append(c.bv(f"b{i}", 8) if kd == "v" else c.const(0x11 * (i + 1), 8))
+        S.Reverse(S.Concat(*parts))
+
+    for kinds in itertools.product("vc", repeat=min(nb, 3)):
+        if "v" not in kinds:
+            continue
+        vs = [(f"b{i}", 8, [0, 1, 0x7F, 0x80, 0xFF, 0x5A]) for i, kd in enumerate(kinds) if kd == "v"]
+        inst(f"rev.bytes|{''.join(kinds)}", vs, lambda c, kinds=kinds: bytes_concat(c, kinds))
+
+    # Reverse(Concat(Reverse(p), Reverse(q)))
+    if w >= 16:
+        for wp in range(8, w, 8):
+            wq = w - wp
+            inst(
+                f"rev.concat_of_reversed|w={w}|{wp}+{wq}",
+                [("p", wp, dom(wp, 40)), ("q", wq, dom(wq, 40))],
+                lambda c, wp=wp, wq=wq: S.Reverse(S.Concat(c.bv("p", wp).reversed, c.bv("q", wq).reversed)),
+            )
+            inst(
+                f"rev.extract_rev_concat|w={w}|{wp}+{wq}",
+                [("p", wp, dom(wp, 40)), ("q", wq, dom(wq, 40))],
+                lambda c, wp=wp, wq=wq: [
+                    S.Extract(hi, lo, S.Reverse(S.Concat(c.bv("p", wp), c.bv("q", wq))))
+                    for hi, lo in _slices(w, tier, small=True)
+                ],
+            )
+
+    # Extract(hi, lo, Reverse(x)) and Reverse(Extract(hi, lo, Reverse(x)))
+    def ext_rev(c, hi, lo):
+        x = c.bv("x", w)
+        e = S.Extract(hi, lo, S.Reverse(x))
+        if (hi - lo + 1) % 8 == 0:
+            S.Reverse(e)
+        s2 = x.reversed[hi:lo]
+        if (hi - lo + 1) % 8 == 0:
+            s2.reversed
+
+    for hi, lo in _slices(w, tier):
+        inst(f"rev.extract|w={w}|{hi}:{lo}", [("x", w, D)], lambda c, hi=hi, lo=lo: ext_rev(c, hi, lo))
+
+    # Reverse(x) ==/!= Reverse(y), Reverse(x) == const
+    def rev_eq(c):
+        x, y = c.bv("x", w), c.bv("y", w)
+        x.reversed == y.reversed
+        x.reversed != y.reversed
+        for k in consts(w)[:6]:
+            x.reversed == k
+            x.reversed != c.const(k, w).reversed
+
+    inst(f"rev.eq|w={w}", [("x", w, D2), ("y", w, D2)], rev_eq)
+
+    # concrete Reverse of every domain value (the 16/32/64 fast paths and the generic loop)
+    def rev_conc(c):
+        for v in D:
+            S.Reverse(c.const(v, w))
+
+    inst(f"rev.concrete|w={w}", [], rev_conc)
+
+
+def _slices(w, tier, small=False):
+    if w <= 16 and not small:
+        return [(hi, lo) for hi in range(w) for lo in range(hi + 1)]
+    out = set()
+    for lo in range(0, w):
+        for ln in (1, 8, 9, 16):
+            hi = lo + ln - 1
+            if hi < w and (tier == "thorough" or lo % 8 in (0, 1, 7) or ln in (8,)):
+                out.add((hi, lo))
+    out |= {(w - 1, 0), (w - 1, 8), (w - 9, 0), (w - 1, w - 8), (7, 0), (8, 1), (15, 8)} & {(h, l) for h in range(w) for l in range(h + 1)}
+    if small:
+        out = {(h, l) for h, l in out if l % 8 in (0, 1) and (h - l + 1) in (1, 8, 16)} | {(w - 1, 0), (8, 1), (7, 0), (w - 1, w - 8)}
+        out = {(h, l) for h, l in out if 0 <= l <= h < w}
+    return sorted(out)
+
+
+def d_eqne(inst, tier, w):
+    Dx = dom(w, 1024)
+    cs = consts(w)
+    V1 = [("x", w, Dx)]
+
+    def sub_eq(c, c1, c2):
+        x = c.bv("x", w)
+        (x - c1) == c2
+        (x - c.const(c1, w)) == c.const(c2, w)
+        (x - c.const(c1, w)) != c.const(c2, w)
+        c.const(c2, w) == (x - c.const(c1, w))
+
+    for c1 in cs:
+        for c2 in cs:
+            inst(f"eq.sub_const|w={w}|{c1},{c2}", V1, lambda c, c1=c1, c2=c2: sub_eq(c, c1, c2))
+
+    def xor1(c):
+        x = c.bv("x", w)
+        one, zero = c.const(1, w), c.const(0, w)
+        (x ^ one) == zero
+        (one ^ x) == zero
+        (x ^ one) != zero
+        (one ^ x) != zero
+        (x ^ 1) == 0
+        (x ^ 1) != 0
+
+    inst(f"eq.xor1|w={w}", V1, xor1)
+
+    def and_xor(c, a):
+        x = c.bv("x", w)
+        A = c.const(a, w)
+        Z = c.const(0, w)
+        ((x & A) ^ A) == Z
+        ((A & x) ^ A) == Z
+        ((x & A) ^ A) != Z
+        ((A & x) ^ A) != Z
+        (A ^ (x & A)) == Z
+        ((x & a) ^ a) == 0
+
+    for a in cs:
+        inst(f"eq.and_xor|w={w}|a={a}", V1, lambda c, a=a: and_xor(c, a))
+
+    def if_eq(c, k1, k2, k3):
+        b = c.boolean("c")
+        K1, K2, K3 = c.const(k1, w), c.const(k2, w), c.const(k3, w)
+        i = S.If(b, K1, K2)
+        i == K3
+        K3 == i
+        i != K3
+        K3 != i
+
+    ks = cs if w <= 2 else cs[:3] + cs[-2:]
+    for k1, k2, k3 in itertools.product(ks, repeat=3):
+        inst(f"eq.if_const|w={w}|{k1},{k2},{k3}", [("c", 0, [False, True])], lambda c, a=k1, b=k2, d=k3: if_eq(c, a, b, d))
+
+    def if_eq_sym(c):
+        b = c.boolean("c")
+        x, y = c.bv("x", w), c.bv("y", w)
+        for t, f in ((x, y), (x, c.const(1, w)), (c.const(0, w), y), (x, x + 1), (x + 1, x)):
+            i = S.If(b, t, f)
+            i == t
+            i == f
+            t == i
+            f == i
+            i != t
+            i != f
+            t != i
+            f != i
+
+    D2 = dom(w, 512, 2)
+    inst(f"eq.if_sym|w={w}", [("x", w, D2), ("y", w, D2), ("c", 0, [False, True])], if_eq_sym)
+
+    # (x & mask) ==/!= b
+    masks = cs if w <= 4 else sorted({0, 1, 3, 7, 0xF, 0x1F, 0x3F, 0x7F, 0xFF, 0x80, 0x5A, 0x10, 2, 6, 0xFFF, 0x100, 0x1FF, 0xFF00} & set(range(1 << w)))
+    bs = cs if w <= 4 else sorted(set(cs) | {0x10, 0x1F, 0x20, 0x100 & mask(w), 0x1FF & mask(w)})
+
+    def and_mask(c, m, b):
+        x = c.bv("x", w)
+        M, B = c.const(m, w), c.const(b, w)
+        (x & M) == B
+        (x & M) != B
+        (M & x) == B
+        (x & m) == b
+
+    for m in masks:
+        for b in bs:
+            inst(f"eq.and_mask|w={w}|m={m}|b={b}", V1, lambda c, m=m, b=b: and_mask(c, m, b))
+
+
+def d_zeroext_cmp(inst, tier, w):
+    Dx = dom(w, 1024)
+    V1 = [("x", w, Dx)]
+    for k in (1, 2, 3) if w <= 4 else (8, 24):
+        W = w + k
+        for b in consts(W):
+
+            def body(c, k=k, b=b, W=W):
+                x = c.bv("x", w)
+                B = c.const(b, W)
+                ze = S.ZeroExt(k, x)
+                cc = S.Concat(c.const(0, k), x)
+                for e in (ze, cc):
+                    e == B
+                    e != B
+                    e >= B
+                    S.UGE(e, B)
+                    B == e
+                # Extract(hi, 0, ZeroExt/Concat) against constants of the extracted width
+                for hi in range(W) if W <= 8 else (w - 1, w, W - 2, W - 1, 7, 8):
+                    if not 0 <= hi < W:
+                        continue
+                    bb = c.const(b, hi + 1)
+                    S.Extract(hi, 0, ze) == bb
+                    S.Extract(hi, 0, cc) != bb
+                    S.Extract(hi, 0, S.Concat(c.const(0, k), x)) == bb
+
+            inst(f"cmp.zeroext|w={w}|k={k}|b={b}", V1, body)
+
+    # SIMPLE_OPS bit-by-bit comparison: Concat / SignExt / ZeroExt with concrete low or high parts
+    for b in consts(w + 1):
+
+        def body2(c, b=b):
+            x = c.bv("x", w)
+            B = c.const(b, w + 1)
+            for e in (S.Concat(x, c.const(1, 1)), S.Concat(c.const(1, 1), x), S.SignExt(1, x), S.Concat(x, c.const(0, 1))):
+                e == B
+                e != B
+                B == e
+                B != e
+
+        inst(f"cmp.simple_ops|w={w}|b={b}", V1, body2)
+
+
+def d_booland(inst, tier, w):
+    D2 = dom(w, 1024, 2)
+    V = [("x", w, D2), ("y", w, D2)]
+    cs = consts(w)
+    small = cs if w <= 3 else cs[:3] + cs[-2:]
+
+    def eqeq(c, a, b):
+        x = c.bv("x", w)
+        S.And(x == a, x == b)
+        S.And(x == a, x != b)
+        S.And(x != a, x == b)
+        S.And(x == a, x != b, x != a)
+        S.And(x == a, x == b, x != b)
+        S.Or(x == a, x == b)
+        S.And(c.const(a, w) == x, x == b)
+
+    for a in small:
+        for b in small:
+            inst(f"and.eqeq|w={w}|{a},{b}", V, lambda c, a=a, b=b: eqeq(c, a, b))
+
+    def uge_ne(c):
+        x, y = c.bv("x", w), c.bv("y", w)
+        S.And(x >= y, x != y)
+        S.And(x != y, x >= y)
+        S.And(S.UGE(x, y), y != x)
+        S.And(x == y, x != y)
+        S.And(x == y, y == x)
+        S.And(x == y, x == y + 1)
+        S.And(S.SGE(x, y), x != y)
+        S.And(x <= y, x != y)
+        for k in small:
+            S.And(x >= k, x != k)
+            S.And(x == y, x != k)
+            S.And(x == y, x == k, y != k)
+        t, f = c.true(), c.false()
+        S.And(x == y, t)
+        S.And(t, x == y, t)
+        S.And(x == y, f)
+        S.Or(x == y, f)
+        S.Or(f, x == y, f)
+        S.Or(x == y, t)
+        S.And(S.And(x == y, x >= y), S.And(x == y, x <= y))
+        S.Or(S.Or(x == y, x >= y), S.Or(x == y, x <= y))
+
+    inst(f"and.misc|w={w}", V, uge_ne)
+
+    def nots(c):
+        x, y = c.bv("x", w), c.bv("y", w)
+        for f in (S.ULT, S.ULE, S.UGT, S.UGE, S.SLT, S.SLE, S.SGT, S.SGE):
+            S.Not(f(x, y))
+            S.Not(S.Not(f(x, y)))
+        S.Not(x == y)
+        S.Not(x != y)
+
+    inst(f"not.cmp|w={w}", V, nots)
+
+
+def d_addsub(inst, tier, w):
+    D2 = dom(w, 1024, 2)
+    V = [("x", w, D2), ("y", w, D2)]
+    cs = consts(w)
+
+    def body(c, c1, c2):
+        x, y = c.bv("x", w), c.bv("y", w)
+        C1, C2 = c.const(c1, w), c.const(c2, w)
+        (x - C1) + C2
+        (x - C1) - C2
+        (x + C1) - C2
+        (x + y + C1) - C2
+        (x + C1) + C2
+        (C1 - x) - C2
+        (x * C1) * C2
+        ((x - C1) + C2) - C1
+        (x - c1) + c2
+        c2 + (x - c1)
+
+    for c1 in cs:
+        for c2 in cs:
+            inst(f"add.sub_flatten|w={w}|{c1},{c2}", V, lambda c, a=c1, b=c2: body(c, a, b))
+
+    def selfs(c):
+        x, y = c.bv("x", w), c.bv("y", w)
+        x - x
+        (x + y) - (x + y)
+        x ^ x
+        x ^ y ^ x
+        x ^ y ^ x ^ y
+        x | x
+        x & x
+        (x | y) | (y | x)
+        (x & y) & x
+        x + 0
+        0 + x
+        x * 1
+        x - 0
+        x ^ 0
+        x | 0
+        x & 0
+        x & mask(w)
+        mask(w) & x
+
+    inst(f"add.self|w={w}", V, selfs)
+
+
+def d_minmax(inst, tier, w):
+    D2 = dom(w, 1024, 2)
+    V = [("q", w, D2), ("r", w, D2)]
+
+    def body(c, variant):
+        q, r = c.bv("q", w), c.bv("r", w)
+        sh = c.const(w - 1, w)
+        s = (q - r) if variant == "max" else (r - q)
+        t = q ^ r
+        u = (s ^ q) if variant == "max" else (s ^ r)
+        v = u & t
+        ww = v ^ s
+        x = ww >> sh
+        y = x & t
+        q ^ y
+        y ^ q
+
+    for variant in ("max", "min"):
+        inst(f"xor.minmax|w={w}|{variant}", V, lambda c, v=variant: body(c, v))
+
+
+def d_rotmask(inst, tier, N):
+    D = byte_atom_domain(N, cap=600)
+    V = [("A", N, D)]
+    want = 0xFFFF if N == 32 else 0xFFFFFFFF
+
+    def body(c, a, m):
+        A = c.bv("A", N)
+        ((A << a) | S.LShR(A, N - a)) & m
+        ((A << c.const(a, N)) | S.LShR(A, c.const(N - a, N))) & c.const(m, N)
+
+    amounts = (1, 3, 8, 13, 16, N - 1) if tier == "quick" else tuple(range(1, N))
+    for a in amounts:
+        # masks that do / do not match the rewrite's condition
+        good = ((want << a) | (want >> (N - a))) & mask(N)
+        for m in {good, good ^ 1, good | (1 << (N - 1)), want, mask(N), good >> 1}:
+            inst(f"and.rotmask|N={N}|a={a}|m={m:#x}", V, lambda c, a=a, m=m: body(c, a, m))
+
+
+def d_andmisc(inst, tier, w):
+    # Concat(p, q) & mask  for every split and every mask
+    for wp in range(1, w):
+        wq = w - wp
+        V = [("p", wp, dom(wp, 64)), ("q", wq, dom(wq, 64))]
+        for m in consts(w):
+
+            def body(c, wp=wp, wq=wq, m=m):
+                p, q = c.bv("p", wp), c.bv("q", wq)
+                S.Concat(p, q) & c.const(m, w)
+                c.const(m, w) & S.Concat(p, q)
+                S.Concat(p, q) | c.const(m, w)
+
+            inst(f"and.concat_mask|w={w}|{wp}+{wq}|m={m}", V, body)
+
+    def ifif(c):
+        b, d = c.boolean("c"), c.boolean("d")
+        one, zero = c.const(1, w), c.const(0, w)
+        S.If(b, one, zero) & S.If(d, one, zero)
+        S.If(b, one, zero) & S.If(d, zero, one)
+        S.If(b, one, zero) | S.If(d, one, zero)
+        ~S.If(b, one, zero)
+        ~S.If(b, zero, one)
+        S.If(b, one, zero)[0:0]
+        if w > 1:
+            S.If(b, c.const(2, w), zero) & S.If(d, one, zero)
+            ~S.If(b, one, c.bv("x", w))
+
+    inst(f"and.ifif|w={w}", [("c", 0, [False, True]), ("d", 0, [False, True]), ("x", w, dom(w, 64))], ifif)
+
+
+def d_shifts(inst, tier, w):
+    Dx = dom(w, 256)
+    cs = consts
+
+    def body(c, k):
+        x = c.bv("x", w)
+        W = w + k
+        for s in cs(W):
+            Sx = c.const(s, W)
+            for e in (S.Concat(c.const(0, k), x), S.ZeroExt(k, x)):
+                e >> Sx
+                S.LShR(e, Sx)
+                e << Sx
+
+    for k in (1, 2):
+        inst(f"shift.zeroext|w={w}|k={k}", [("x", w, Dx)], lambda c, k=k: body(c, k))
+
+    def nested(c, a, b):
+        x = c.bv("x", w)
+        A, B = c.const(a, w), c.const(b, w)
+        (x << A) << B
+        S.LShR(S.LShR(x, A), B)
+        (x >> A) >> B
+        S.LShR(x << A, B)
+        (x << a) << b
+
+    for a in cs(w):
+        for b in cs(w):
+            inst(f"shift.nested|w={w}|{a},{b}", [("x", w, Dx)], lambda c, a=a, b=b: nested(c, a, b))
+
+    def sym(c):
+        x, y = c.bv("x", w), c.bv("y", w)
+        (x << y) << y
+        (x << y) << 1
+        (x << 1) << y
+        S.RotateLeft(S.RotateLeft(x, y), y)
+        S.RotateRight(S.RotateLeft(x, y), y)
+
+    D2 = dom(w, 1024, 2)
+    inst(f"shift.sym|w={w}", [("x", w, D2), ("y", w, D2)], sym)
+
+
+def d_extract(inst, tier, w):
+    D2 = dom(w, 256, 2)
+    V = [("x", w, D2), ("y", w, D2), ("c", 0, [False, True])]
+
+    def body(c, k):
+        x, y, b = c.bv("x", w), c.bv("y", w), c.boolean("c")
+        shapes = [
+            S.SignExt(k, x),
+            S.ZeroExt(k, x),
+            S.Concat(x, y),
+            S.Concat(x, c.const(1, k), y),
+            S.Concat(c.const(0, k), x),
+            x & y & c.const(5 & mask(w), w),
+            x | c.const(1, w),
+            x ^ y ^ c.const(mask(w), w),
+            S.If(b, c.const(1, w), c.const(0, w)),
+            S.If(b, c.const(mask(w), w), c.const(2 & mask(w), w)),
+            S.If(b, x, c.const(0, w)),
+            ~x,
+            ~(x & y),
+            x + y,
+            S.ZeroExt(k, x)[w + k - 1 : 1] if w + k > 2 else x,
+        ]
+        for e in shapes:
+            W = e.w
+            for hi in range(W):
+                for lo in range(hi + 1):
+                    e[hi:lo]
+
+    for k in (1, 2):
+        inst(f"extract.shapes|w={w}|k={k}", V, lambda c, k=k: body(c, k))
+
+
+def d_concat(inst, tier, w):
+    D2 = dom(w, 256, 2)
+    V = [("x", w, D2), ("y", w, D2)]
+
+    def body(c):
+        x, y = c.bv("x", w), c.bv("y", w)
+        k1, k2 = c.const(1, 1), c.const(2 & mask(w), w)
+        S.Concat(k1, k2, x)
+        S.Concat(x, k1, k2)
+        S.Concat(k1, x, k2, k1, y)
+        S.Concat(S.Concat(x, y), x)
+        S.Concat(x, S.Concat(y, k1))
+        S.Concat(S.Concat(k1, x), S.Concat(k2, y))
+        z0 = S.SV(c, claripy.BVV(0, 0), c.scope.const(0), 0, "0#0")
+        S.Concat(x, z0)
+        S.Concat(z0, x, z0, y)
+        if w >= 2:
+            for cut in range(1, w):
+                S.Concat(x[w - 1 : cut], x[cut - 1 : 0])
+                S.Concat(x[w - 1 : cut], y[cut - 1 : 0])
+                if cut >= 2:
+                    S.Concat(x[w - 1 : cut], x[cut - 1 : 1], x[0:0])
+                    S.Concat(x[w - 1 : cut], x[cut - 2 : 0])
+            S.Concat(x[0:0], x[w - 1 : 1])
+            S.Concat(y, x[w - 1 : 1], x[0:0], y)
+
+    inst(f"concat.misc|w={w}", V, body)
+
+
+def d_ite(inst, tier, w):
+    D = dom(w, 16)
+    V = [("x", w, D), ("y", w, D), ("c", 0, [False, True]), ("d", 0, [False, True])]
+
+    def body(c):
+        x, y, b, d = c.bv("x", w), c.bv("y", w), c.boolean("c"), c.boolean("d")
+        k = c.const(1, w)
+        nb = S.Not(b)
+        S.If(b, S.If(b, x, y), k)
+        S.If(b, S.If(nb, x, y), k)
+        S.If(b, x, S.If(b, y, k))
+        S.If(b, x, S.If(nb, y, k))
+        S.If(nb, S.If(b, x, y), k)
+        S.If(nb, x, S.If(b, y, k))
+        S.If(b, S.If(d, x, y), S.If(d, x, y))
+        S.If(b, S.If(d, x, y), S.If(b, k, y))
+        S.If(S.And(b, d), S.If(b, x, y), k)
+        t, f = c.true(), c.false()
+        S.If(b, t, f)
+        S.If(b, f, t)
+        S.If(b, d, d)
+        S.If(b, d, S.Not(d))
+        S.If(b, S.If(b, d, t), f)
+        S.If(x == y, x, y)
+        S.If(x == x, x, y)
+        S.If(True, x, y)
+        S.If(False, x, y)
+        S.If(b, 1, x)
+        S.If(b, x, 1)
+        S.If(b, x, y) + S.If(b, y, x)
+        S.If(b, x, y) == S.If(d, x, y)
+
+    inst(f"ite.nested|w={w}", V, body)
+
+
+def d_fold(inst, tier, w):
+    """concrete folding of every binary / unary operation on constants (the eager concrete path)"""
+    cs = list(range(1 << w)) if (w <= 4 or (w <= 8 and tier == "thorough")) else consts(w)
+    big = w > 16
+
+    def body(c, a):
+        A = c.const(a, w)
+        keep = [c.const(b, w) for b in cs]  # all constants stay alive (hash-cons aliasing shows)
+        -A
+        ~A
+        for B in keep:
+            b = B.tab[0]
+            A + B
+            A - B
+            A * B
+            A & B
+            A | B
+            A ^ B
+            A == B
+            A != B
+            A < B
+            A <= B
+            A > B
+            A >= B
+            S.SLT(A, B)
+            S.SLE(A, B)
+            S.SGT(A, B)
+            S.SGE(A, B)
+            S.Concat(A, B)
+            for f in (lambda: A // B, lambda: A % B, lambda: S.SDiv(A, B), lambda: S.SMod(A, B)):
+                try:
+                    f()
+                except Skip:
+                    c.part.count("zero_division_accepted")
+            if not big or b <= 4 * w:
+                A << B
+                A >> B
+                S.LShR(A, B)
+            S.RotateLeft(A, B)
+            S.RotateRight(A, B)
+            x = c.bv("x", w)
+            x + B
+            B - x
+            x ^ B
+        for k in (0, 1, 2, 7):
+            S.ZeroExt(k, A)
+            S.SignExt(k, A)
+        for hi, lo in {(w - 1, 0), (w - 1, w - 1), (0, 0), (w - 1, 1), (w - 2, 0)} if w > 1 else {(0, 0)}:
+            S.Extract(hi, lo, A)
+        if w % 8 == 0:
+            S.Reverse(A)
+
+    for a in cs:
+        inst(f"fold|w={w}|a={a}", [("x", w, [0, 1, mask(w), 5 & mask(w)])], lambda c, a=a: body(c, a))
+
+
+# ---------------------------------------------------------------------------------------------
+# work list and parallel runner
+# ---------------------------------------------------------------------------------------------
+
+DRIVERS = {
+    "reverse": d_reverse,
+    "eqne": d_eqne,
+    "zeroext_cmp": d_zeroext_cmp,
+    "booland": d_booland,
+    "addsub": d_addsub,
+    "minmax": d_minmax,
+    "rotmask": d_rotmask,
+    "andmisc": d_andmisc,
+    "shifts": d_shifts,
+    "extract": d_extract,
+    "concat": d_concat,
+    "ite": d_ite,
+    "fold": d_fold,
+}
+
+
+def work_items(tier):
+    q = tier == "quick"
+    items = []
+    for w in (16, 24, 32) if q else (16, 24, 32, 40, 64):
+        items.append(("reverse", w))
+    for w in (1, 2, 3, 8) if q else (1, 2, 3, 4, 8, 16):
+        items.append(("eqne", w))
+    for w in (1, 2, 3) if q else (1, 2, 3, 4, 8):
+        items.append(("zeroext_cmp", w))
+    for w in (1, 2, 3) if q else (1, 2, 3, 4, 8):
+        items.append(("booland", w))
+        items.append(("addsub", w))
+    for w in (2, 3, 4) if q else (2, 3, 4, 5, 8, 16):
+        items.append(("minmax", w))
+    for n in (32, 64):
+        items.append(("rotmask", n))
+    for w in (2, 3, 4) if q else (2, 3, 4, 5, 8):
+        items.append(("andmisc", w))
+    for w in (1, 2, 3) if q else (1, 2, 3, 4):
+        items.append(("shifts", w))
+        items.append(("extract", w))
+    for w in (1, 2, 3, 4) if q else (1, 2, 3, 4, 8):
+        items.append(("concat", w))
+        items.append(("ite", w))
+    for w in (1, 2, 3, 4, 5, 6, 7, 8, 12, 16, 24, 32, 63, 64, 65, 128) if q else (1, 2, 3, 4, 5, 6, 7, 8, 9, 12, 16, 24, 31, 32, 33, 48, 63, 64, 65, 96, 127, 128, 129, 256):
+        items.append(("fold", w))
+    return items
+
+
+def _run_item(args):
+    import importlib
+
+    name, w, tier, monitor = args
+    modname, fn = monitor.split(":")
+    on_check = getattr(importlib.import_module(modname), fn)
+    part = Part()
+    inst = Inst(part, on_check)
+    DRIVERS[name](inst, tier, w)
+    part.note("pattern_drivers", f"{name}/w={w}")
+    return part.dump()
+
+
+def run_patterns(report, monitor: str, tier: str, only=None):
+    items = [(n, w, tier, monitor) for n, w in work_items(tier) if only is None or n in only]
+    for res in pmap(_run_item, items):
+        report.merge(res)
